@@ -168,7 +168,7 @@ def impl(case):
     A, B = build(case["ka"], case["Pa"]), build(case["kb"], case["Pb"])
     if case.get("pre"):
         A = build(case["ka"], case["pre"])
-        capture(lambda: Intersection.curve_and_curve(A, B), seconds=30)
+        capture(lambda: Intersection.curve_and_curve(A, B), seconds=90)
         A.ctrlpoints = [np.array([float(v) for v in nums(pt)]) for pt in case["Pa"]]
     if case.get("ra"):
         ra = case["ra"]
@@ -181,7 +181,7 @@ def impl(case):
         B.degree_increase(1)
     snap = lambda c: (tuple(c.knotvector), tuple(map(tuple, c.ctrlpoints)))
     before = (snap(A), snap(B))
-    r = capture(lambda: [[out_num(t), out_num(u)] for t, u in Intersection.curve_and_curve(A, B)], seconds=30)
+    r = capture(lambda: [[out_num(t), out_num(u)] for t, u in Intersection.curve_and_curve(A, B)], seconds=90)
     return {"r": r, "same": before == (snap(A), snap(B))}
 
 
